@@ -533,3 +533,63 @@ for _fn in ("load_latest_snapshot", "write_snapshot"):
         # records are dicts with non-empty string endpoints (stated input invariant): the skip / keep-old-key arms are dead
         unreachable_ok=["continue", "new_edges[k] = rec"],
     )
+
+# ---------------------------------------------------------------- "every snapshot written carries the frozen schema marker"
+# Engine-F clauses (AST): (1) the module constant is the frozen marker; (2) write_snapshot's payload literal carries
+# "schema_version": SCHEMA_VERSION and nothing afterwards removes or rebinds that key before the body is written;
+# (3) both writers (write_snapshot, _write_lines) write the sidecar with schema_version=SCHEMA_VERSION and
+# _write_sidecar_meta puts its argument under "schema_version".
+from pyvc.effects import result as _fres
+
+
+def _schema_marker(cl, mod, cls, func):
+    out = []
+    nm = cl["name"]
+    const = mod.consts.get("SCHEMA_VERSION")
+    ok = isinstance(const, _ast.Constant) and const.value == "v1"
+    out.append(_fres(nm + "/frozen-constant", "proved" if ok else "failed",
+                     "" if ok else "SCHEMA_VERSION is %s, the frozen snapshot schema marker is 'v1'" % (_ast.unparse(const) if const is not None else "missing")))
+    ws = mod.functions.get("write_snapshot")
+    if ws is None:
+        return out + [_fres(nm + "/anchors", "error", "anchor lost: write_snapshot")]
+    lit = None
+    for n in _ast.walk(ws):
+        if isinstance(n, (_ast.Assign, _ast.AnnAssign)):
+            tg = n.targets[0] if isinstance(n, _ast.Assign) else n.target
+            if isinstance(tg, _ast.Name) and tg.id == "payload" and isinstance(n.value, _ast.Dict):
+                lit = n
+                break
+    has = lit is not None and any(isinstance(k, _ast.Constant) and k.value == "schema_version" and _ast.unparse(v) == "SCHEMA_VERSION"
+                                  for k, v in zip(lit.value.keys, lit.value.values))
+    out.append(_fres(nm + "/body-carries-marker", "proved" if has else "failed",
+                     "" if has else "write_snapshot's payload literal has no \"schema_version\": SCHEMA_VERSION entry"))
+    bad = []
+    for n in _ast.walk(ws):
+        if lit is not None and getattr(n, "lineno", 0) <= lit.lineno:
+            continue
+        tgts = n.targets if isinstance(n, _ast.Assign) else [n.target] if isinstance(n, (_ast.AugAssign, _ast.AnnAssign)) else \
+            n.targets if isinstance(n, _ast.Delete) else []
+        for t in tgts:
+            if isinstance(t, _ast.Subscript) and _ast.unparse(t.value) == "payload" and isinstance(t.slice, _ast.Constant) and t.slice.value == "schema_version":
+                bad.append("line %d: %s" % (n.lineno, _ast.unparse(n)[:60]))
+            if isinstance(t, _ast.Name) and t.id == "payload":
+                bad.append("line %d: payload rebound" % n.lineno)
+        if isinstance(n, _ast.Call) and isinstance(n.func, _ast.Attribute) and _ast.unparse(n.func.value) == "payload" \
+                and n.func.attr in ("pop", "clear", "popitem") and (n.func.attr != "pop" or (n.args and getattr(n.args[0], "value", None) == "schema_version")):
+            bad.append("line %d: %s" % (n.lineno, _ast.unparse(n)[:60]))
+    out.append(_fres(nm + "/marker-not-removed-before-the-write", "failed" if bad else "proved", "; ".join(bad)))
+    for fn_name in ("write_snapshot", "_write_lines"):
+        fn = mod.functions.get(fn_name)
+        calls = [n for n in _ast.walk(fn) if isinstance(n, _ast.Call) and getattr(n.func, "id", None) == "_write_sidecar_meta"] if fn else []
+        ok = bool(calls) and all(any(k.arg == "schema_version" and _ast.unparse(k.value) == "SCHEMA_VERSION" for k in c.keywords) for c in calls)
+        out.append(_fres(nm + "/sidecar-written-with-marker:" + fn_name, "proved" if ok else "failed",
+                         "" if ok else "%s does not call _write_sidecar_meta(..., schema_version=SCHEMA_VERSION)" % fn_name))
+    sm = mod.functions.get("_write_sidecar_meta")
+    ok = sm is not None and any(isinstance(n, _ast.Dict) and any(isinstance(k, _ast.Constant) and k.value == "schema_version" and _ast.unparse(v) == "schema_version"
+                                                                 for k, v in zip(n.keys, n.values)) for n in _ast.walk(sm))
+    out.append(_fres(nm + "/sidecar-records-its-argument", "proved" if ok else "failed",
+                     "" if ok else "_write_sidecar_meta does not store its schema_version argument under \"schema_version\""))
+    return out
+
+
+R.fclause("C06", "schema-marker", "custom", S + "write_snapshot", fn=_schema_marker)
